@@ -620,7 +620,13 @@ loopX0:    \
     CMPQ len, $0   \
     JLE cryptoBlocksDone     \
     fillCounterX1()   \
-    cryptoBlockAsmRemain(rk,tmp,src,reg3,reg1,reg2,reg3,blockCount)  \
+    MOVQ len, reg2 \
+    MOVQ $0, (tmp) \
+    MOVQ $0, 8(tmp) \
+    copyAsm(tmp,src,len,reg3)  \ // only len bytes of src may be read: stage the tail in tmp
+    SUBQ reg2, tmp \
+    MOVQ reg2, len \
+    cryptoBlockAsmRemain(rk,tmp,tmp,reg3,reg1,reg2,reg3,blockCount)  \
     clearRight(tmp,len,reg3,reg2) \
     MOVQ len, reg2 \
     copyAsm(dst,tmp,len,reg3)  \
